@@ -27,6 +27,7 @@ sensitivity: s/min(stream.len() \/ 2, len)/min((stream.len() + 1) \/ 2, len)/@sr
 sensitivity:    checked language: differs only when a 16-bit character is split mid-character (illegal cut)
 sensitivity: reverting fix 312fb27 (per-fragment decoding) is refuted by leg 0 (MC_BiffSst_aswas.cfg: dev SurrogateSplit)
 sensitivity:    and was observed on the real code (118 of 4686 layouts read U+FFFD U+FFFD) before the fix
+sensitivity: seeded C02-2 (parse_sst drops zero-length strings)                                      KILLED (replay + trace)
 """
 import json
 
